@@ -38,6 +38,15 @@ Example C12_stray_replies_are_dropped :
      OFrame 2 2 116; ODeliver 2 {| r_type := 117; r_id := 5 |}].
 Proof. vm_compute. reflexivity. Qed.
 
+(* a reply whose tag is not outstanding changes nothing at all, and a reply
+   with an outstanding tag touches no other tag's entry: other calls are undisturbed *)
+Theorem C12_stray_reply_noop : forall st t r, h_out st !! t = None -> hstep st (EResp t r) = (st, []).
+Proof. exact stray_reply_noop. Qed.
+
+Theorem C12_reply_touches_only_its_tag : forall st t r t',
+  t' <> t -> h_out (fst (hstep st (EResp t r))) !! t' = h_out st !! t'.
+Proof. exact reply_touches_only_its_tag. Qed.
+
 (* 2. a reply that is neither of the type the method asserts nor Rerror
    surfaces as ErrUnexpectedMsg (table read off csession.go) *)
 Theorem C12_wrong_type : forall mt r,
@@ -65,6 +74,11 @@ Theorem C12_exit_ready : forall st,
   h_panicked st = false -> h_closed st = false -> (h_shut st || h_ctx st) = true ->
   exit_enabled st = true /\ h_closed (fst (hstep st EExit)) = true /\ snd (hstep st EExit) = [OClosed].
 Proof. exact exit_ready. Qed.
+
+Theorem C12_never_stuck_after_failure : forall evs,
+  let st := fst (run evs) in
+  (h_shut st || h_ctx st) = true -> h_closed st = true \/ exit_enabled st = true.
+Proof. exact never_stuck_after_failure. Qed.
 
 Theorem C12_fatal_and_ctx_arm_the_exit : forall st,
   h_shut (fst (hstep st EReadFatal)) = true /\ h_ctx (fst (hstep st ECtxDone)) = true.
@@ -135,9 +149,12 @@ Proof. intros m h. split; [exact (allocate_never_unexpected m h) | exact (alloca
 
 Print Assumptions C12_no_panic.
 Print Assumptions C12_stray_replies_are_dropped.
+Print Assumptions C12_stray_reply_noop.
+Print Assumptions C12_reply_touches_only_its_tag.
 Print Assumptions C12_wrong_type.
 Print Assumptions C12_wrong_type_nonvacuous.
 Print Assumptions C12_exit_ready.
+Print Assumptions C12_never_stuck_after_failure.
 Print Assumptions C12_fatal_and_ctx_arm_the_exit.
 Print Assumptions C12_reader_comes_to_rest.
 Print Assumptions C12_read_timeout_harmless.
